@@ -510,6 +510,16 @@ theorem snk_call1_nozero (s : Snk) (o : Octet) (hz : NoZero s.script) :
     | eagain => simp at hk
     | hard e => simp at hk
 
+/-- a sink that never answers 0 is asked once -/
+theorem putRetry_nozero (fuel : Nat) (s : Snk) (o : Octet) (hz : NoZero s.script) :
+    putRetry (fuel + 1) s o = s.call [o] := by
+  simp only [putRetry, sink_put_octet]
+  split
+  · rename_i s' heq
+    have := (snk_call1_nozero s o hz 0 (by rw [heq])).1
+    omega
+  · rfl
+
 /-- one octet from source to sink (drivers never answering 0): success moves exactly one octet;
     on failure at most one octet taken from the source is lost -/
 theorem sts_cbc_spec (src : Src) (snk : Snk) (hs : NoZero src.script) (hk : NoZero snk.script) :
@@ -520,7 +530,7 @@ theorem sts_cbc_spec (src : Src) (snk : Snk) (hs : NoZero src.script) (hk : NoZe
   have hadv := Adv.of_call src 1
   obtain ⟨_, _, _, _, _, herr, hnd⟩ := call_spec src 1
   have hone := src_call1_nozero src hs
-  simp only [sts_cbc, source_get_octet, sink_put_octet]
+  simp only [sts_cbc, source_get_octet, putRetry_nozero _ snk _ hk]
   rcases hc : src.call 1 with ⟨rc, d0, src1⟩
   rw [hc] at hadv herr hnd hone
   simp only at hadv herr hnd hone ⊢
